@@ -1,12 +1,73 @@
 (* C11 driver: the Coq model of semantic hashing on the BDDs the model's builder produces for
    the case's program under the three orders, fed with the weights printed in the case.
-   Build mode Checked = the harness profile (overflow-checks on); a model panic prints PANIC. *)
+   Build mode Checked = the harness profile (overflow-checks on); a model panic prints PANIC.
+   SDD half: the same program run on the Coq model of the SDD builder (C03, compression on) under
+   the case's explicit vtrees (VT and, when present, SV), hashed by Model/SddSemHash.v:
+   sdd_hash_m (DDNNFPtr::semantic_hash), sdd_cached_hashes (SddPtr::cached_semantic_hash). *)
 let primes3 = [prime_U32_TINY; prime_U32_SMALL; prime_U64_LARGEST]
 let sv = function Some x -> string_of_n x | None -> "PANIC"
 let rec drop_until tok = function [] -> [] | x :: r -> if x = tok then r else drop_until tok r
 let safe_op = function
   | OConst _ | OVar _ | ONeg _ | OAnd _ | OOr _ | OCond _ | OExists _ | OAndLst _ | OOrLst _ -> true
   | _ -> false
+
+(* vtree ::= L <var> | N <vtree> <vtree> *)
+let rec parse_vtree = function
+  | "L" :: v :: r -> (VLeaf (n_of_int (ios v)), r)
+  | "N" :: r -> let (l, r) = parse_vtree r in let (rt, r) = parse_vtree r in (VNode (l, rt), r)
+  | _ -> failwith "vtree"
+
+(* the BDD program language on the SDD builder model, as the harness executes it (exec_sdd):
+   and_lst / or_lst are left folds of and / or from PtrTrue / PtrFalse; a pool index that is out of
+   range reads PtrFalse.  Returns the model program and, per case operation, the index of its
+   result in the model's pool. *)
+let sdd_prog (ops : bop list) : sop list * int array =
+  let out = ref [] and n = ref 0 in
+  let push o = out := o :: !out; incr n; !n - 1 in
+  let idx = Array.make (List.length ops) 0 in
+  List.iteri (fun k o ->
+    let g i = let i = int_of_nat i in if i < k then nat_of_int idx.(i) else nat_of_int !n in
+    idx.(k) <- (match o with
+      | OConst b -> push (if b then so_true else so_false)
+      | OVar (v, b) -> push (so_var v b)
+      | ONeg i -> push (so_neg (g i))
+      | OAnd (i, j) -> let a = g i in let b = g j in push (so_and a b)
+      | OOr (i, j) -> let a = g i in let b = g j in push (so_or a b)
+      | OXor (i, j) -> let a = g i in let b = g j in push (so_xor a b)
+      | OIff (i, j) -> let a = g i in let b = g j in push (so_iff a b)
+      | OIte (i, j, l) -> let a = g i in let b = g j in let c = g l in push (so_ite a b c)
+      | OCond (i, v, b) -> push (so_cond (g i) v b)
+      | OExists (i, v) -> push (so_exists (g i) v)
+      | OAndLst l -> let acc = ref (push so_true) in
+        List.iter (fun i -> let x = g i in acc := push (so_and (nat_of_int !acc) x)) l; !acc
+      | OOrLst l -> let acc = ref (push so_false) in
+        List.iter (fun i -> let x = g i in acc := push (so_or (nat_of_int !acc) x)) l; !acc
+      | _ -> failwith "operation not in the C11 case language")) ops;
+  (List.rev !out, idx)
+
+(* the four SDD fields for one vtree; [None] when the builder model does not return a pool *)
+let sdd_fields vt ops target ng (qs : string list) ws =
+  let (sops, idx) = sdd_prog ops in
+  match sdd_pool_of (sdd_run_prog vt true sops) with
+  | None -> None
+  | Some mpool ->
+    let at i = List.nth mpool idx.(i) in
+    let tp = let p = at (ios target) in if ng <> "0" then sneg p else p in
+    let rec qlist = function i :: g :: t -> (let p = at (ios i) in if g <> "0" then sneg p else p) :: qlist t | _ -> [] in
+    let queries = qlist qs in
+    let per f = String.concat "," (List.map2 f primes3 ws) in
+    let sh = per (fun p w -> sv (sdd_hash_m Checked p w tp)) in
+    let sn = per (fun p w -> sv (sdd_hash_m Checked p w (sneg tp))) in
+    let lst = function Some (l, _) -> String.concat "," (List.map string_of_n l) | None -> "PANIC" in
+    let sc = String.concat ";" (List.map2 (fun p w -> lst (sdd_cached_hashes Checked p w queries [])) primes3 ws) in
+    let all = List.mapi (fun k _ -> at k) ops in
+    (* the harness asks the queries first and then every pool entry on the same node caches *)
+    let sp = (match sdd_cached_hashes Checked prime_U64_LARGEST (List.nth ws 2) (queries @ all) [] with
+      | Some (l, _) ->
+        let rec drop k l = if k = 0 then l else drop (k - 1) (List.tl l) in
+        String.concat "," (List.map string_of_n (drop (List.length queries) l))
+      | None -> "PANIC") in
+    Some (sh, sn, sc, sp)
 
 let () =
   List.iter (fun line ->
@@ -19,6 +80,7 @@ let () =
          let (o1s, r) = take nv r in
          let (o2s, r) = take nv r in
          let ord l = List.map (fun s -> nat_of_int (ios s)) l in
+         let (vt, r) = (match r with "VT" :: r -> parse_vtree r | _ -> failwith "VT expected") in
          let r = drop_until "Q" r in
          (match r with
           | split :: k :: r ->
@@ -30,8 +92,9 @@ let () =
                            | _ -> failwith "weights" in
             let (w0, r) = weights r nv in
             let (w1, r) = weights r nv in
-            let (w2, _) = weights r nv in
+            let (w2, r) = weights r nv in
             let ws = [w0; w1; w2] in
+            let vts = (match r with "SV" :: r -> [vt; fst (parse_vtree r)] | _ -> [vt]) in
             let pool_of o = match run_prog all_remembered (bstate_init o) ops with Some st -> Some st.bpool | None -> None in
             (match pool_of order0, pool_of (ord o1s), pool_of (ord o2s) with
              | Some pl0, Some pl1, Some pl2 ->
@@ -64,6 +127,10 @@ let () =
                if List.for_all safe_op ops then
                  Buffer.add_string buf (String.concat "," (List.map (fun p -> sv (hash_m Checked prime_U64_LARGEST w2 p)) pl0))
                else Buffer.add_char buf '-';
+               let fs = List.map (fun v -> sdd_fields v ops target ng qs ws) vts in
+               let col name f = Buffer.add_string buf (" " ^ name ^ "=" ^ String.concat "|" (List.map (function Some x -> f x | None -> "NONE") fs)) in
+               col "sh" (fun (a, _, _, _) -> a); col "sn" (fun (_, b, _, _) -> b);
+               col "sc" (fun (_, _, c, _) -> c); col "sp" (fun (_, _, _, d) -> d);
                print_endline (Buffer.contents buf)
              | _ -> print_endline (id ^ " NONE"))
           | _ -> print_endline (id ^ " BADCASE"))
